@@ -29,6 +29,16 @@ impl SwiftField for Field19 {
     where
         Self: Sized,
     {
+        // 17d: at most 17 characters, decimal separator included
+        if input.len() > 17 {
+            return Err(crate::errors::ParseError::InvalidFormat {
+                message: format!(
+                    "Field 19 amount must not exceed 17 characters, found {}",
+                    input.len()
+                ),
+            });
+        }
+
         let amount = parse_amount(input)?;
 
         Ok(Field19 { amount })
